@@ -7,11 +7,12 @@ META = {
     "level": "model_checking",
     "bounds": {
         "quick": "all ordered pairs over 14 integer types + bool source (scalar, full-width symbolic source); arrays T[3] for 6 pair classes; "
-                 "store/load/UNSAFE_sandboxed of 13 tainted integer types on the LP32 model backend",
+                 "store/load/UNSAFE_sandboxed of 13 tainted integer types on the LP32 model backend; plain and tainted arguments and results of invocations "
+                 "(3 signatures) and argument/result of a callback on the multi-instance LP32 backend",
         "thorough": "quick + arrays T[2][2] and T[3] for 12 pair classes + B16 backend end-to-end",
     },
     "outside": "bool as a destination; float/double/enum (no integer conversion is performed for them); "
-               "full invoke/callback plumbing is covered by C11/C12",
+               "identity of the called function and the other clauses of invocation/callbacks are C11/C12",
     "assumptions": ["model backend B32: long=int32, pointer=uint32 (LP32); region base symbolic, 4 GiB aligned"],
 }
 
@@ -191,4 +192,12 @@ def jobs(tier, seed):
                 chks.append(dict(name="%s load %s" % (sbx, t.tag), fn=check_load, kw=dict(t=t, log=log)))
                 chks.append(dict(name="%s sandboxed %s" % (sbx, t.tag), fn=check_sbxd, kw=dict(t=t, log=log)))
             out.append(Job("C06_e2e_%s_%s" % (sbx, grp[0].tag), e2e_source(grp, sbx), chks))
+    # arguments and results of invocations and callbacks (the kernels and oracles of C11/C12, value clause only)
+    from specs import C11, C12
+    fl = ["-D_GLIBCXX_EXTERN_TEMPLATE=0"]
+    src11 = C11.gen_source()
+    items = [dict(name="invoke %s %s" % (n, f), fn=C11.check_sig, kw=dict(name=n, form=f), unwind=300) for n in ("s1", "s3", "s6") for f in ("plain", "tainted")]
+    for i in range(3):
+        out.append(Job("C06_invoke_%d" % i, src11, items[i::3], flags=fl))
+    out.append(Job("C06_callback", '#include "C12_bm.inc"\n', [dict(name="callback long(long) argument and result", fn=C12.check_bm_long, kw=dict(k="k_bm_cb_long"), unwind=200)]))
     return out
